@@ -21,7 +21,7 @@ ASSUMPTIONS = [
     "rates are non-negative on all states the limits allow; births use bounded rates (generator construction)",
     "a per-case 60 s safety net turns a runaway simulation into 'inconclusive', never into a violation",
 ]
-BUDGET = {"quick": (4, 90), "thorough": (16, 1200)}
+BUDGET = {"quick": (4, 180), "thorough": (16, 1500)}
 TECHNIQUE = "property-based testing (Hypothesis @given over models, seeds, algorithms) with a path invariant against the abstract model's state-change matrix"
 LEVEL_TEXT = ("Exploration over programs, inputs and random streams: each generated path is checked step by step against "
               "the state-change matrix derived independently from the abstract model. Right level: the property is an "
@@ -36,8 +36,11 @@ STEP_BUDGET = 400000
 def strategy(tier):
     @st.composite
     def case(draw):
-        shape = draw(st.sampled_from(["any"] * 6 + ["one-event", "one-state", "one-both"]))
-        if shape == "one-event":
+        shape = draw(st.sampled_from(["any"] * 4 + ["limits", "limits", "limits", "one-event", "one-state", "one-both"]))
+        if shape == "limits":
+            # declared per-state limits (one- and two-sided): a legal step may land exactly ON a limit and must be taken
+            m = draw(S.event_model(limits=True, max_states=4))
+        elif shape == "one-event":
             m = draw(S.event_model(max_events=1))
         elif shape == "one-state":
             m = draw(S.event_model(max_states=1, kinds="BD", allow_range=False))
@@ -45,7 +48,33 @@ def strategy(tier):
             m = draw(S.event_model(max_states=1, max_events=1, kinds="BD", allow_range=False))
         else:
             m = draw(S.event_model())
-        setup = draw(S.stochastic_setup(m))
+        setup = draw(S.stochastic_setup(m, x_hi=(12 if shape == "limits" else 40)))
+        if shape == "limits" and draw(st.booleans()):
+            # start one step away from a declared bound, so that the very next firing of some event lands exactly on it
+            names = ir.state_names(m)
+            lims = ir.state_limits(m)
+            cands = []
+            for ev in m["events"]:
+                net = {}
+                for tr in ev["trans"]:
+                    k = tr["mag"]["int"]
+                    if tr["kind"] in ("T", "D"):
+                        net[tr["o"]] = net.get(tr["o"], 0) - k
+                    if tr["kind"] in ("T", "B"):
+                        net[tr["d"]] = net.get(tr["d"], 0) + k
+                for nm, dlt in net.items():
+                    lo, hi = lims[names.index(nm)]
+                    if dlt > 0 and hi is not None:
+                        cands.append((nm, hi - dlt))
+                    if dlt < 0 and lo is not None:
+                        cands.append((nm, lo - dlt))
+            if cands:
+                nm, v = draw(st.sampled_from(cands))
+                lo, hi = lims[names.index(nm)]
+                if (lo is None or v >= lo) and (hi is None or v <= hi):
+                    x0 = list(setup["x0"])
+                    x0[names.index(nm)] = int(v)
+                    setup = dict(setup, x0=x0)
         algo = draw(st.sampled_from(["exact", "tau", "tau", "pre_tau"]))
         a = {"exact": algo == "exact", "pre_tau": None, "epsilon": None}
         if algo == "pre_tau":
@@ -97,6 +126,8 @@ def oracle(case, rec):
             rec.label("stop:horizon")
         if steps >= 5 and (len(fired) >= 2 or n_e == 1):
             nontrivial = True
+    if any(d.get("lims") is not None for d in m["state_decl"] if "range" not in d):
+        rec.label("shape:declared-limits")
     if n_e == 1:
         rec.label("shape:one-event")
     if n_s == 1:
